@@ -79,6 +79,10 @@ def _ev(s, sigma):
             return Val(abs(a.v), a.s, a.approx, a.ill)
         if k == "Sgn":
             ill = a.ill or (a.s != 0 and abs(a.v) < ILL * a.s and a.v != 0) or (a.approx and abs(a.v) < 1e-6 * _f(a.s))
+            if a.v == 0 and a.s != 0 and not _integers_only(c, sigma, a.s):
+                # an argument that cancels to exactly 0 over the rationals ((z^4)^1 - (z^2)^2 at z = 3.14) is
+                # whatever rounding leaves of it in floating point: its sign is not decidable
+                ill = True
             sg = (a.v > 0) - (a.v < 0)
             return Val(Fraction(sg), Fraction(1), False, ill)
         # factorial
@@ -230,6 +234,38 @@ def holds(s, sigma, tolerant=False):
     if r is None:
         return None
     return r[0]
+
+
+def _integers_only(s, sigma, scale):
+    """every leaf of the subtree is an integer below 2^53 in scale and the operators are + - * (and whole
+    non-negative powers): then integer and floating-point arithmetic both compute it exactly"""
+    if scale >= 2 ** 53:
+        return False
+
+    def ok(t):
+        if t is None:
+            return True
+        k = t[0]
+        if k == "Constant":
+            v = t[1][1] if isinstance(t[1], tuple) else t[1]
+            return isinstance(v, Fraction) and v.denominator == 1
+        if k == "Variable":
+            v = sigma.get(t[1])
+            return isinstance(v, Fraction) and v.denominator == 1
+        if k in ("Add", "Subtract", "Multiply", "Negate", "Abs"):
+            return ok(t[2]) and ok(t[3])
+        if k == "Power":
+            e = t[3]
+            if e is None or e[0] != "Constant":
+                return False
+            ev_ = e[1][1] if isinstance(e[1], tuple) else e[1]
+            return isinstance(ev_, Fraction) and ev_.denominator == 1 and 0 <= ev_ <= 64 and ok(t[2])
+        return False
+
+    try:
+        return ok(s)
+    except Exception:
+        return False
 
 
 def _chain(s, sigma, tolerant):
